@@ -9,6 +9,8 @@ engine, not listed.  (R2) one-trip normal form: from_serialized never populates 
 moves serialized in-progress entries to the queue, so a second round trip is the identity on
 structure.  (R3) version/key agreement between the writer (version field, model_dump) and
 from_dict_auto.
+Also (R2) rehydrate_with_ticks builds one replay tick per restored waiter that lost its requirements (per element of the iteration
+over collected_waiters, the element's own event, no further selection).
 Not decided: equality of final results and store contents.
 """
 
@@ -172,6 +174,10 @@ def run(chk) -> None:
                instance="normal-form:every-in-progress-requeued", reason="an iteration can reach the next one without appending: that running invocation is dropped on resume")
     PARTS = ("in_progress", "queue", "collected_waiters", "collected_events")
     filt = [c for c in ast.walk(from_s) if isinstance(c, (ast.ListComp, ast.GeneratorExp, ast.DictComp, ast.SetComp)) and any(any(f".{p_}" in ast.unparse(g.iter) for p_ in PARTS) and g.ifs for g in c.generators)]
+    # waiters restored without their (unserializable) requirements are re-registered by replaying the waiting step: one replay
+    # per such waiter, or the resumed run never matches the others
+    from ._engine import rehydrate_replays
+    rehydrate_replays(chk, "C12.R2")
     chk.ob("C12.R2", "no filter is applied to the serialized queue / in-progress / waiter / buffer entries on restore", not filt, m=ms, node=filt[0] if filt else from_s, fn=from_s, instance="normal-form:no-restore-filter",
            reason=f"a comprehension over serialized work has an `if` clause: `{ast.unparse(filt[0])[:80] if filt else ''}`")
     for c in rest_calls:
@@ -208,6 +214,12 @@ def _enclosing_loop_iter(node: ast.AST) -> ast.AST:
 
 
 TWINS = [
+    Twin("one replay per step instead of one per restored waiter", IS_REL, '            for waiter in sorted(\n                worker_state.collected_waiters, key=lambda x: x.waiter_id\n            ):\n                if waiter.has_requirements and not waiter.requirements:\n                    commands.append(\n                        TickAddEvent(event=waiter.event, step_name=step_name)\n                    )\n',
+         "            pending = [w for w in sorted(worker_state.collected_waiters, key=lambda x: x.waiter_id) if w.has_requirements and not w.requirements]\n            if pending:\n                commands.append(TickAddEvent(event=pending[0].event, step_name=step_name))\n", "C12.R2"),
+    Twin("replays de-duplicated by input event", IS_REL, '            for waiter in sorted(\n                worker_state.collected_waiters, key=lambda x: x.waiter_id\n            ):\n                if waiter.has_requirements and not waiter.requirements:\n                    commands.append(\n                        TickAddEvent(event=waiter.event, step_name=step_name)\n                    )\n',
+         "            seen = set()\n            for waiter in sorted(worker_state.collected_waiters, key=lambda x: x.waiter_id):\n                if waiter.has_requirements and not waiter.requirements and id(waiter.event) not in seen:\n                    seen.add(id(waiter.event))\n                    commands.append(TickAddEvent(event=waiter.event, step_name=step_name))\n", "C12.R2"),
+    Twin("benign: replay loop over a filtered list, loop variable renamed", IS_REL, '            for waiter in sorted(\n                worker_state.collected_waiters, key=lambda x: x.waiter_id\n            ):\n                if waiter.has_requirements and not waiter.requirements:\n                    commands.append(\n                        TickAddEvent(event=waiter.event, step_name=step_name)\n                    )\n',
+         "            lost = [w for w in sorted(worker_state.collected_waiters, key=lambda x: x.waiter_id) if w.has_requirements and not w.requirements]\n            for w in lost:\n                commands.append(TickAddEvent(event=w.event, step_name=step_name))\n", None),
     Twin("unattempted queue entries are written without their bookkeeping", "packages/llama-index-workflows/src/workflows/runtime/types/internal_state.py", "                    recovery_counts=dict(attempt.recovery_counts),\n                )\n                for attempt in worker_state.queue", "                    recovery_counts=dict(attempt.recovery_counts),\n                )\n                if attempt.attempts\n                else SerializedEventAttempt(event=serializer.serialize(attempt.event))\n                for attempt in worker_state.queue", "C12.R1"),
     Twin("running invocations equal to a queued one are dropped on restore", "packages/llama-index-workflows/src/workflows/runtime/types/internal_state.py", "            for event_str in worker_data.in_progress:\n                worker.queue.append(", "            already_queued = {attempt.event for attempt in worker_data.queue}\n            for event_str in worker_data.in_progress:\n                if event_str in already_queued:\n                    continue\n                worker.queue.append(", "C12.R2"),
     Twin("queue drops recovery counts", IS_REL, "                    last_failed_at=attempt.last_failed_at,\n                    recovery_counts=dict(attempt.recovery_counts),\n                )\n                for attempt in worker_state.queue", "                    last_failed_at=attempt.last_failed_at,\n                )\n                for attempt in worker_state.queue", "C12.R1"),
